@@ -506,14 +506,24 @@ func (e *FunctionCallExpr) Value(ctx *hcl.EvalContext) (cty.Value, hcl.Diagnosti
 
 			// Try to convert our value to the parameter type
 			var err error
+			givenVal := val
 			val, err = convert.Convert(val, param.Type)
 			if err != nil {
+				problem := err.Error()
+				if givenVal.ContainsMarked() {
+					// A conversion error can name map keys and object
+					// attributes of the given value, and keys derived from
+					// marked values transfer their marks to the collection
+					// as a whole, so in this case we only state what was
+					// required.
+					problem = param.Type.FriendlyNameForConstraint() + " required"
+				}
 				diags = append(diags, &hcl.Diagnostic{
 					Severity: hcl.DiagError,
 					Summary:  "Invalid function argument",
 					Detail: fmt.Sprintf(
 						"Invalid value for %q parameter: %s.",
-						param.Name, err,
+						param.Name, problem,
 					),
 					Subject:     argExpr.StartRange().Ptr(),
 					Context:     e.Range().Ptr(),
